@@ -477,7 +477,8 @@ def check_return_edge(chk, m, fn, t, v, pred, blk, part, S):
 
 def eval_fn(fn, m, argval):
     """Finite-set evaluation of a one-argument helper on a concrete argument."""
-    env = {("arg", 0): argval & 0xff}
+    bits = paths.int_bits_of(fn.args[0].ty) or 8
+    env = paths.LazyEnv(m, {("arg", 0): argval & ((1 << bits) - 1)})
     for p in paths.enumerate_paths(fn, m):
         ok = True
         for cd in p.conds:
